@@ -385,10 +385,18 @@ func (ms *Modules) Process() []error {
 		ToEntry(m).FixChoice()
 	}
 
-	// Go through any modules that have remaining augments and collect
-	// the errors.
+	// Go through any modules that have remaining augments and report
+	// them.
 	for _, m := range mods {
 		ToEntry(m).Augment(true)
+	}
+	// Collect the errors of all modules, not only of those with
+	// remaining augments: merging an augment records conflicts on the
+	// target, which may be in any module.
+	for _, m := range ms.Modules {
+		errs = append(errs, ToEntry(m).GetErrors()...)
+	}
+	for _, m := range ms.SubModules {
 		errs = append(errs, ToEntry(m).GetErrors()...)
 	}
 
